@@ -113,6 +113,17 @@ def run(ctx):
             ib = fx.body(inner[0])
             if ib is not None and ib is not b and not set(kinds) & {'Tags'}:
                 okm = q.must_pass(ib, 0, inner[1])
+                # .. and the call that leads there is itself on every successful path through the arm (seed C10-p: `if let Some(slice) =
+                # parse_chunk(..)? { add_slice(slice) }` - a key-less slice left the context on the entity before it)
+                import callgraph as _CG
+                g_ = _CG.get(fx)
+                cs_ = []
+                for c_ in q.calls(b):
+                    lb_ = c_.local_body()
+                    if c_.bb in reg and lb_ is not None and (lb_.name == inner[0] or ib.path in g_.cone([lb_.path])):
+                        cs_.append(c_)
+                oka = bool(cs_) and not any(common.arm_bypass(b, s, reg, c_.bb) for c_ in cs_)
+                okm = okm and oka
                 ctx.inst('S1', '%s#always' % '/'.join(kinds), okm, 'context write in %s happens %s' % (inner[0].split('::')[-1],
                          'on every successful path' if okm else 'ONLY ON SOME PATHS'), inner[2], key='%s|S1|%s|always' % (PF, '/'.join(kinds)))
         for kind in kinds:
